@@ -378,3 +378,8 @@ def check(ctx: Ctx) -> None:
     check_endmarker_requeue(ctx, "C07.i")
     check_callback_failure_closes(ctx, "C07.j")
     check_weak_lookup_guarded(ctx, "C07.k")
+
+    # "the gateway connection itself stays up": a body raising KeyboardInterrupt/SystemExit on the worker's primary thread is absorbed by
+    # the pool's Reply.run (BaseException), so it cannot unwind integrate_as_primary_thread and end serve()
+    from ..report import borrow
+    borrow(ctx, "C09", {"C09.e": "C07.l"})
